@@ -30,6 +30,17 @@ CHECKS = {
                      "(natural unit or each unit _fit can choose) the solver shows for ALL amount pairs in the box that the result magnitude equals the product/quotient of the operand magnitudes "
                      "within tolerance, and that the three borrowed-operand forms return the same unit and term as the owned form.",
                 note="Trusted: as C01. Borrowed forms on a subset of unit rows in quick, all rows in thorough. The multiply-then-divide consequence follows from two tolerance statements.", ref="7 C04"),
+    "C05": dict(engine="mirsmt+kani", technique="MIR symbolic execution + SMT (z3) for the composition on both back-ends; Kani/CBMC (SAT, bit-precise f64) for the _fit selection rule",
+                text="Bounded model checking. E2: for every operator instance and operand unit pair, if the scale product/quotient computed in the amount type is a unit's scale the result is on a single path, "
+                     "carries a unit of that scale (the reference unit for reference operands) and its amount is exactly the term a o b; otherwise every path's unit is eligible and is a correct choice "
+                     "for some value within rounding of the exact magnitude (all amounts in the box). E1: for every result type, for EVERY f64 bit pattern x, _fit(x) picks an eligible unit that is the largest "
+                     "with scale <= x or the smallest eligible one, boundaries decided exactly.",
+                note="Trusted: as C01 plus Kani/CBMC. The exact boundary rule is decided on f64 only (Kani); for decimals the rule is decided up to rounding of the magnitude by E2.", ref="7 C05"),
+    "C07": dict(engine="kani", technique="Kani/CBMC bounded model checking over a symbolic unit index per quantity type; native registry dump as replay",
+                text="Bounded model checking of the generated name/symbol/si_prefix/scale functions of all 14 catalogue quantities (f64 and decimal) and the 4 astronomical quantities against an "
+                     "independently written definition table (exact rational chains): every unit by symbolic index; scales bit-exact when the definition is a terminating decimal, 2 ulp / 1e-18 otherwise; "
+                     "reference units have scale one; SI-prefix consistency shown on the table's rationals. Finite domain, decided completely by the solver.",
+                note="Trusted: Kani/CBMC, spec/catalogue.py (astronomical crate: the rationals stated in its own docs and IAU constants - weaker independence). One recorded known finding (Sideral_Day).", ref="7 C07"),
     "C16": dict(engine="kani", technique="Kani/CBMC bounded model checking (SAT) over symbolic index / i8 / bounded strings",
                 text="Bounded model checking of the compiled SIPrefix code against the SI-brochure table: every iterated prefix (symbolic index), "
                      "from_exp for all 256 i8 values, from_abbr for every UTF-8 string up to 3 bytes (4 in thorough), pairwise distinctness. "
